@@ -281,6 +281,12 @@ def parseRequests (data : Bytes) : Option (List Msg) :=
   | .single r => some [parseMember (memberView r)]
   | .batch rs => some (rs.map fun r => parseMember (memberView r))
 
+/-- the `Error` field `ParseRequests` reports for a member: the member parser's deferred error,
+or - for a member without a method name, which is not a request at all - "empty method name";
+`[]` = the request is valid -/
+def parsedFlag (j : Msg) : List Code :=
+  if j.errs != [] then j.errs else if j.m == [] then [InvalidRequest] else []
+
 /-! ## the encoder (`jmessage.toJSON`, `jmessages.toJSON`) -/
 
 structure OutMsg where
